@@ -851,6 +851,8 @@ def run_c18(ctx):
                 bad(f"{key}: marked blocks {red}, path blocks {sorted(set(ps[k - 1]))}")
             if sorted(dot["nodes"]) != sorted(b["idx"] for b in mm["blocks"]):
                 bad(f"{key}: nodes {sorted(dot['nodes'])} differ from the blocks")
+            if dot["edges"] != sorted(set(tuple(e) for e in mm["dot_path_edges"])):
+                bad(f"{key}: edges {dot['edges']} differ from the global graph {sorted(set(tuple(e) for e in mm['dot_path_edges']))}")
         # cfg printer
         cfgdot = [v for k, v in r.get("printer_files", {}).items() if k.endswith("full_cfg.dot")]
         if cfgdot:
@@ -858,7 +860,7 @@ def run_c18(ctx):
             nfacts += 3
             if sorted(d["nodes"]) != sorted(b["idx"] for b in mm["blocks"]):
                 bad(f"cfg DOT nodes {sorted(d['nodes'])} differ from blocks {sorted(b['idx'] for b in mm['blocks'])}")
-            exp_edges = cli.expected_full_cfg_edges(mm)
+            exp_edges = sorted(set(tuple(e) for e in mm["dot_edges"]))   # Model/Output.full_cfg_edges (= cfg_edge, OutputLemmas)
             if d["edges"] != exp_edges:
                 bad(f"cfg DOT edges {d['edges']} differ from the global graph {exp_edges}")
             for b in mm["blocks"]:
@@ -883,6 +885,17 @@ def run_c18(ctx):
                 bad(f"subroutine-cfg {s['name']}: nodes {sorted(d['nodes'])} differ from its blocks {sorted(s['blocks'])}")
             if len(d["boxes"]) != len(sites):
                 bad(f"subroutine-cfg {s['name']}: {len(d['boxes'])} call boxes for {len(sites)} call sites")
+            ms = [x for x in mm["dot_subs"] if x["name"] == s["name"]]
+            if ms:
+                exp_boxes = sorted(f"x{c}_{'none' if rp is None else rp}" for c, rp, _ in ms[0]["boxes"])
+                if sorted(d["boxes"]) != exp_boxes:
+                    bad(f"subroutine-cfg {s['name']}: call boxes {sorted(d['boxes'])}, call sites/return points give {exp_boxes}")
+                if d["edges"] != sorted(set(tuple(e) for e in ms[0]["edges"])):
+                    bad(f"subroutine-cfg {s['name']}: local edges {d['edges']} differ from {sorted(set(tuple(e) for e in ms[0]['edges']))}")
+                exp_be = sorted([(str(c), f"x{c}_{'none' if rp is None else rp}") for c, rp, _ in ms[0]["boxes"]] +
+                                [(f"x{c}_{rp}", str(rp)) for c, rp, _ in ms[0]["boxes"] if rp is not None])
+                if sorted(d["box_edges"]) != exp_be:
+                    bad(f"subroutine-cfg {s['name']}: box edges {sorted(d['box_edges'])} differ from {exp_be}")
         # call graph
         cg = [v for k, v in r.get("printer_files", {}).items() if k.endswith("call-graph.dot")]
         if cg:
@@ -896,6 +909,10 @@ def run_c18(ctx):
             nfacts += 1
             if got_edges != sorted(exp):
                 bad(f"call-graph edges {got_edges} differ from retained call sites {sorted(exp)}")
+            if mm.get("callgraph") is not None and got_edges != sorted(set(tuple(e) for e in mm["callgraph"])):
+                bad(f"call-graph edges {got_edges} differ from Model/Output.callgraph_edges {sorted(set(tuple(e) for e in mm['callgraph']))}")
+        elif mm.get("callgraph"):
+            bad("call-graph printer wrote no file although the contract has call sites")
     cov["traces_validated_against_impl"] = nfacts
     cov["evaluations"] = nfacts
     cov["distinct_nontrivial"] = nprog
